@@ -152,20 +152,9 @@ def parts_of(t):
 
 
 def eval_text(nf, variant, env, D):
-    a = {("var", "self"): ("variant", MV + variant)}
-    a.update(env)
-    v = hir.fold(nf, a, D)
-    if isinstance(v, tuple) and v and v[0] == "lit" and isinstance(v[1], str):
-        return v[1]
-    if not (isinstance(v, tuple) and v and v[0] == "str"):
-        return None
-    out = ""
-    for p in v[1:]:
-        if p[0] in ("ch", "s") and p[1][0] == "lit" and isinstance(p[1][1], str):
-            out += p[1][1]
-        else:
-            return None
-    return out
+    """Text the writer produces for a move of this kind under concrete field values (case folding), or None."""
+    from .common import eval_move_text
+    return eval_move_text(nf, variant, env, D)
 
 
 def y2(ctx, F, D):
